@@ -1,7 +1,9 @@
 """C04 - no call ever removes an object that some pid still references; the last delete removes it."""
 from props.common import *   # noqa
 
-MINE = {"referenced-object-removed", "store-state:object-bytes-changed", "model:obj"}
+MINE = {"referenced-object-removed", "store-state:object-bytes-changed", "model:obj",
+        # the claim over histories is inductive and rests on the bookkeeping invariant being closed
+        "bookkeeping-not-exact"}
 
 
 def main(tier, replay_payload=None):
